@@ -291,6 +291,7 @@ class Tracer:
         self.alias = []
         self.numeric = []       # per evolution: (node, spectrum of the effective Hamiltonian, norm of the evolved tensor)
         self.qr = []            # (node, old parent dim(s), new parent dim)
+        self.bcs = []           # C09W hook: (node, basis-change matrix) in the order they are computed
         self.active = False
         self.after_trunc = False
 
@@ -515,6 +516,9 @@ class Tracer:
         def tensordot_(*a, **k):
             if T.active and T.stack:
                 T.events.append(("BasisChange", nnum(T.stack[-1]), []))
+                r = o_td(*a, **k)
+                T.bcs.append((nnum(T.stack[-1]), np.array(r)))          # C09W hook
+                return r
             return o_td(*a, **k)
         self._patch(cb, "tensordot", tensordot_)
 
@@ -523,6 +527,9 @@ class Tracer:
         def cbc(node_old, node_new, tensor_old, tensor_new, bc_cache):
             if T.active:
                 T.events.append(("BasisChange", nnum(node_old.identifier), sorted(nnum(a) for a, _ in bc_cache.keys())))
+                r = o_cbc(node_old, node_new, tensor_old, tensor_new, bc_cache)
+                T.bcs.append((nnum(node_old.identifier), np.array(r)))   # C09W hook
+                return r
             return o_cbc(node_old, node_new, tensor_old, tensor_new, bc_cache)
         self._patch(cb, "compute_basis_change_tensor", cbc)
 
@@ -948,6 +955,7 @@ def _run_case(case):
             st["events"] = tracer.events
             st["numeric"] = tracer.numeric
             st["qr"] = tracer.qr
+            st["bcs"] = tracer.bcs        # C09W hook
             st["alias"] = tracer.alias
             st["move_modes"] = sorted(set(tracer.move_modes))
             st["psi1"] = util.dense_ttn(state1, ids)
@@ -1002,6 +1010,26 @@ class C09(Prop):
               "node's parent leg exceeds the parent-side dimension (the repaired finding) (C09_shape_*); QR leg tuples partition the legs; "
               "concatenation along the parent leg adds the parent dimensions only"),
         ("F", "after truncation every bond <= max_bond_dim: the selection rule of C10 (C09_trunc_bond_le, cites Trunc/Select.v)"),
+        ("F", "store level (Evo/BUGStore.v: root_update / update_node / update_leaf_node / update_non_leaf_node, pull_tensor_from_different_ttn, "
+              "relative_leg_permutation, contract_all_children, split_node_replace, new-basis QR as programs over the frozen store model): for "
+              "every well-formed store, every tree, both variants, whenever the model accepts the step, the returned state has exactly the original "
+              "identifiers, parent pointers and children sets, every temporary basis-change node is gone, root unchanged, recorded centre = root "
+              "(C09_store_structure), and every non-root tensor is exactly one Q atom of a QR kernel call whose new bond is its parent leg, i.e. the "
+              "executable isometry check of C03 accepts the result (C09_store_canonical_root); induction over the tree (C09_store_update_node); "
+              "local shape rule of the new basis (new bond = qr_new_leg of the product of the other legs and r resp. r_old + r; fixed rank keeps "
+              "the shape: C09_store_new_basis_shape, C09_store_qr_rule_agrees)"),
+        ("F", "basis-change matrix as a diagram (compute_basis_change_tensor = the block recursion of contract_any_nodes between the old bases "
+              "and the conjugated new bases, children's matrices = recursive calls): under the hypothesis checker bc_okb, legs = [old parent wire; "
+              "conjugated new parent wire], atoms = old and conjugated new atoms of the subtree each once, every inner edge wire of both states "
+              "bound, glued pairs = (old open wire, conjugated new open wire) per node of the subtree (C09_store_bc_diagram, cites C04's "
+              "block_two_subtree_closed)"),
+        ("I", "per explored step (both copy strategies): the literal store printed from the caller's state satisfies wfb, the store model accepts the "
+              "step, its observation of the result (node dict order, parents, children order, leg permutations, recorded shapes, tensor dict order, raw "
+              "shapes, root, centre) equals the implementation's exactly, iso_check and wfb hold for the model's final store, shape_root of "
+              "Sched/BUG.v predicts exactly the shapes of the store model's result (shapes_agree), bc_okb holds for every non-root node "
+              "(harness/props/c09w.py)"),
+        ("V", "every basis-change matrix the implementation computed on a subsample of the steps equals (1e-9) the einsum value of its model "
+              "diagram evaluated on the caller's tensors (old bases) and the conjugated returned tensors (new bases)"),
         ("O", "fixed-rank Galerkin step never increases the norm: unitary after a contraction M = U_old^H U_new (Section with matrix-algebra laws as hypotheses)"),
         ("V", "step equality with the scheme, spectra of every projected Hamiltonian, conservation up to the discarded weight, saturated two-node "
               "exactness, canonical root, bond limit, both copy strategies equal, caller's/parent's state untouched: dense reference + runtime monitors"),
@@ -1066,6 +1094,11 @@ class C09(Prop):
             c["trunc=" + ("none" if not x.get("trunc") else "on")] += 1
             c[f"steps={x['nsteps']}"] += 1
         c.update(getattr(self, "_stats", {}))
+        try:
+            from props import c09w
+            c.update(c09w.stats)          # C09W hook: number of basis-change matrices compared with their diagram
+        except Exception:  # noqa
+            pass
         return dict(c)
 
     # ------------------------------------------------------------------------------------------
